@@ -81,7 +81,7 @@ def _rename_in(tree_or_node, new, old, *, attrs=True, names=True):
 def reconcile(module) -> list[tuple[str, str, float]]:
     """Map renamed functions of `module` back to their recorded names (in the AST).  Returns [(new, old, similarity)]."""
     ref = load_anchors().get(module.rel)
-    if not ref:
+    if not ref or module.rel == '__all__':
         return []
     current = module.functions
     missing = [q for q in ref if q not in current]
